@@ -49,7 +49,7 @@ Section One.
   Variable E : evs.
   Variable c : ctx.
 
-  Lemma same_step_nonfunc e : match e with EFunc _ _ => False | _ => True end -> same_step E c e.
+  Lemma bodies_denote_hand_model_nonfunction e : match e with EFunc _ _ => False | _ => True end -> same_step E c e.
   Proof.
     intros H. destruct e; try contradiction;
       unfold same_step, next2, next1, guarded, arity_ok; cbn [ev_g ev_b ev_n ev_s ev_f ev_l];
@@ -60,7 +60,7 @@ Section One.
     destruct (str_eqb name K) eqn:T; [apply str_eqb_eq in T; subst name |].
   Ltac fn_done args := destruct args as [|? [|? ?]]; repeat split; intros; crunch.
 
-  Lemma same_step_func name args : same_step E c (EFunc name args).
+  Lemma bodies_denote_hand_model_function name args : same_step E c (EFunc name args).
   Proof.
     unfold same_step, next2, next1, guarded, arity_ok; cbn [ev_g ev_b ev_n ev_s ev_f ev_l opcode_of].
     unfold fn_opcode, fn_is.
@@ -84,7 +84,7 @@ Section One.
 
   (* the regenerated bodies denote what the tables + the hand-written helper model denote *)
   Lemma bodies_denote_arms e : same_step E c e.
-  Proof. destruct e; try (apply same_step_nonfunc; exact I). apply same_step_func. Qed.
+  Proof. destruct e; try (apply bodies_denote_hand_model_nonfunction; exact I). apply bodies_denote_hand_model_function. Qed.
 End One.
 
 (** * Part 2 *)
